@@ -193,17 +193,17 @@ pub fn exec(song: &mut Song, tokens: &Vec<Token>) -> bool {
                 trk!(song).octave = value_range(0, t.value_i, 10);
             },
             TokenType::OctaveRel => {
-                trk!(song).octave = value_range(0, trk!(song).octave + t.value_i, 10);
+                trk!(song).octave = value_range(0, trk!(song).octave.wrapping_add(t.value_i), 10);
             },
             TokenType::VelocityRel => {
-                trk!(song).velocity = value_range(0, trk!(song).velocity + (song.v_add * t.value_i), 127);
+                trk!(song).velocity = value_range(0, trk!(song).velocity.wrapping_add(song.v_add.wrapping_mul(t.value_i)), 127);
             },
             TokenType::QLenRel => {
-                trk!(song).qlen = trk!(song).qlen + (song.q_add * t.value_i);
+                trk!(song).qlen = trk!(song).qlen.wrapping_add(song.q_add.wrapping_mul(t.value_i));
             },
             TokenType::OctaveOnce => {
-                trk!(song).octave = value_range(0, trk!(song).octave + t.value_i, 10);
-                song.flags.octave_once += t.value_i;
+                trk!(song).octave = value_range(0, trk!(song).octave.wrapping_add(t.value_i), 10);
+                song.flags.octave_once = song.flags.octave_once.wrapping_add(t.value_i);
             },
             TokenType::QLen => {
                 trk!(song).q_on_note = None;
@@ -1391,9 +1391,9 @@ fn tempo_change_a_to_b(song: &mut Song, a: isize, b: isize, len: isize) {
     for i in 0..step_cnt {
         let v = (a as f32) + (width as f32) * (i as f32 / step_cnt as f32);
         tempo_change(song, v as isize);
-        trk!(song).timepos += step;
+        trk!(song).timepos = trk!(song).timepos.wrapping_add(step);
     }
-    trk!(song).timepos = timepos + len;
+    trk!(song).timepos = timepos.wrapping_add(len);
     tempo_change(song, b);
     trk!(song).timepos = timepos;
 }
@@ -1489,7 +1489,7 @@ fn exec_harmony(song: &mut Song, t: &Token, flag_begin: bool) {
             }
             trk!(song).events.push(e);
         }
-        trk!(song).timepos = song.flags.harmony_time + note_len;
+        trk!(song).timepos = song.flags.harmony_time.wrapping_add(note_len);
         return;
     }
 }
@@ -1548,10 +1548,10 @@ pub fn calc_length(len_str: &str, timebase: isize, def_len: isize) -> isize {
             res += (res as f32 / 2.0 + res as f32 / 4.0 + res as f32 / 8.0) as isize;
         } else if cur.eq("..") { // double dotted note (複付点音符)
             cur.next_n(2);
-            res += (res as f32 / 2.0 + res as f32 / 4.0) as isize;
+            res = res.wrapping_add((res as f32 / 2.0 + res as f32 / 4.0) as isize);
         } else { // dotted note
             cur.next();
-            res += (res as f32 / 2.0) as isize;
+            res = res.wrapping_add((res as f32 / 2.0) as isize);
         }
     }
     while !cur.is_eos() {
@@ -1589,9 +1589,9 @@ pub fn calc_length(len_str: &str, timebase: isize, def_len: isize) -> isize {
                 cur.next();
                 n = (n as f32 * 1.5) as isize;
             }
-            res += n;
+            res = res.wrapping_add(n);
         } else {
-            res += def_len;
+            res = res.wrapping_add(def_len);
         }
     }
     res
@@ -1653,11 +1653,11 @@ fn set_note_info_with_default_value(note: &mut NoteInfo, song: &mut Song) {
     let mut noteno = note.o.wrapping_mul(12).wrapping_add(note.no).wrapping_add(note.flag);
     // key_shift / key_flag / track_key
     if song.use_key_shift {
-        noteno += if note.natural == 0 {
+        noteno = noteno.wrapping_add(if note.natural == 0 {
             song.key_flag[(note.no as usize) % 12]
         } else {
             0
-        };
+        });
         noteno = noteno.wrapping_add(song.key_shift);
         noteno = noteno.wrapping_add(trk!(song).track_key);
     }
@@ -1720,7 +1720,7 @@ fn exec_note(song: &mut Song, t: &Token) {
 
     // octave_once?
     if song.flags.octave_once != 0 {
-        trk!(song).octave = trk!(song).octave - song.flags.octave_once;
+        trk!(song).octave = trk!(song).octave.wrapping_sub(song.flags.octave_once);
         song.flags.octave_once = 0;
     }
 
@@ -1761,8 +1761,8 @@ fn tie_mode_port(song: &mut Song) {
         // same note no
         if last_note.v1 == next_event.v1 {
             // add note length
-            let time_pos = next_event.time + next_event.v2;
-            last_note.v2 = time_pos - last_note.time;
+            let time_pos = next_event.time.wrapping_add(next_event.v2);
+            last_note.v2 = time_pos.wrapping_sub(last_note.time);
             continue;
         }
         // check bend range in track
@@ -1777,22 +1777,22 @@ fn tie_mode_port(song: &mut Song) {
         }
         // calc pitch range
         // bend value range: -8192 to 8191
-        let note_diff: isize = next_event.v1 - last_note.v1;
+        let note_diff: isize = next_event.v1.wrapping_sub(last_note.v1);
         tie_value = if tie_value == 0 { (song.timebase * 4) / 8 } else { tie_value };
         let bend_from = (note_diff as f32 * (8192f32 / bend_range as f32)) as isize;
         let bend_to = 0;
         let mut last_v = 0;
         for i in 0..tie_value {
-            let timepos = next_event.time - tie_value + i;
-            let v = ((bend_from - bend_to) as f32 * (i as f32 / tie_value as f32)) as isize;
+            let timepos = next_event.time.wrapping_sub(tie_value).wrapping_add(i);
+            let v = (bend_from.wrapping_sub(bend_to) as f32 * (i as f32 / tie_value as f32)) as isize;
             if last_v == v { continue; }
             last_v = v;
-            let bend_event = Event::pitch_bend(timepos, trk!(song).channel, v + 8192);
+            let bend_event = Event::pitch_bend(timepos, trk!(song).channel, v.wrapping_add(8192));
             trk!(song).events.push(bend_event);
         }
-        last_note.v2 = next_event.time - last_note.time;
+        last_note.v2 = next_event.time.wrapping_sub(last_note.time);
         trk!(song).events.push(last_note);
-        let bend_event_end = Event::pitch_bend(next_event.time, trk!(song).channel, bend_to + 8192);
+        let bend_event_end = Event::pitch_bend(next_event.time, trk!(song).channel, bend_to.wrapping_add(8192));
         trk!(song).events.push(bend_event_end);
         last_note = next_event;
     }
@@ -1814,31 +1814,31 @@ fn tie_mode_bend(song: &mut Song) {
     // set bend 0
     let bend0 = Event::pitch_bend(last_note.time, trk!(song).channel, 8192);
     trk!(song).events.push(bend0);
-    let mut lastpos = last_note.time + last_note.v2;
+    let mut lastpos = last_note.time.wrapping_add(last_note.v2);
     let mut prev_no = last_note.v1; // pitch that is sounding now
     while trk!(song).tie_notes.len() > 0 {
         let next_event = trk!(song).tie_notes.remove(0);
-        lastpos = next_event.time + next_event.v2;
+        lastpos = next_event.time.wrapping_add(next_event.v2);
         // same note no as the one sounding
         if prev_no == next_event.v1 {
             // add note length
-            let time_pos = next_event.time + next_event.v2;
-            last_note.v2 = time_pos - last_note.time;
+            let time_pos = next_event.time.wrapping_add(next_event.v2);
+            last_note.v2 = time_pos.wrapping_sub(last_note.time);
             continue;
         }
         prev_no = next_event.v1;
         // calc pitch range (relative to the sustained first note)
         // bend value range: -8192 to 8191
-        let note_diff: isize = next_event.v1 - last_note.v1;
+        let note_diff: isize = next_event.v1.wrapping_sub(last_note.v1);
         let bend_event = Event::pitch_bend(
             next_event.time,
             trk!(song).channel,
-            (note_diff as f32 * 8192f32 / bend_range as f32) as isize + 8192,
+            ((note_diff as f32 * 8192f32 / bend_range as f32) as isize).wrapping_add(8192),
         );
         trk!(song).events.push(bend_event);
     }
     // write begin note
-    begin_note.v2 = lastpos - begin_note.time;
+    begin_note.v2 = lastpos.wrapping_sub(begin_note.time);
     trk!(song).events.push(begin_note);
     // reset bend
     let bend_end = Event::pitch_bend(lastpos, trk!(song).channel, 8192);
@@ -1857,13 +1857,13 @@ fn tie_mode_gate(song: &mut Song) {
         // same note no
         if last_note.v1 == next_event.v1 {
             // add note length
-            let time_pos = next_event.time + next_event.v2;
-            last_note.v2 = time_pos - last_note.time;
+            let time_pos = next_event.time.wrapping_add(next_event.v2);
+            last_note.v2 = time_pos.wrapping_sub(last_note.time);
             continue;
         }
         // different note no
         if tie_value == 0 {
-            last_note.v2 = next_event.time - last_note.time;
+            last_note.v2 = next_event.time.wrapping_sub(last_note.time);
         } else {
             last_note.v2 = tie_value;
         }
@@ -1875,10 +1875,10 @@ fn tie_mode_gate(song: &mut Song) {
 /// alpeggio mode
 fn tie_mode_alpe(song: &mut Song) {
     let last_note = &trk!(song).tie_notes[trk!(song).tie_notes.len() - 1];
-    let last_pos = last_note.time + last_note.v2;
+    let last_pos = last_note.time.wrapping_add(last_note.v2);
     let tie_notes = trk!(song).tie_notes.clone();
     for mut event in tie_notes.into_iter() {
-        event.v2 = last_pos - event.time;
+        event.v2 = last_pos.wrapping_sub(event.time);
         trk!(song).events.push(event);
     }
     // the group is written: forget it (otherwise it is written again with every later note)
@@ -1961,7 +1961,7 @@ fn exec_note_n(song: &mut Song, t: &Token) {
     let event = Event::note(
         trk!(song).timepos.wrapping_add(t),
         trk!(song).channel,
-        data_note_no + track_key + key_shift,
+        data_note_no.wrapping_add(track_key).wrapping_add(key_shift),
         notelen_real,
         v,
     );
